@@ -223,10 +223,17 @@ class PVTRReader(_PVTKReader):
     ) -> RectilinearMesh:
         extents = decomposition.merged_extents()
         ordinates = [zeros(shape=(extents[i] + 1,)) for i in range(_VTK_SPACE_DIM)]
-        for direction in decomposition.meshed_dimensions():
+        meshed_directions = list(decomposition.meshed_dimensions())
+        for direction in range(_VTK_SPACE_DIM):
+            if direction not in meshed_directions:
+                first_reader = piece_readers[0]
+                assert isinstance(first_reader, VTRReader)
+                ordinates[direction][:] = first_reader.ordinates(direction)[:1]
+        for position, direction in enumerate(meshed_directions):
             index_offset = 0
             for i in range(len(decomposition.decomposition_along(direction))):
-                domain_location = tuple(i if k == direction else 0 for k in range(decomposition.dimension()))
+                # piece locations are indexed by the position among the meshed directions
+                domain_location = tuple(i if k == position else 0 for k in range(decomposition.dimension()))
                 domain_id = decomposition.domain_id(domain_location)
                 piece_reader = piece_readers[domain_id]
                 assert isinstance(piece_reader, VTRReader)
